@@ -293,7 +293,7 @@ def run_c17(prog, job):
         pooled = Agg('PooledObject', [Opaque('the-pooled-connection')])
         try:
             outs_t = W.call(stt, 'A', tk[0], [Agg('Connection', [pooled])])
-        except (Unmodelled, InternalError) as e:
+        except Exception as e:
             # the pooled object is an opaque stand-in: anything but handing it to Object::take cannot be followed - and is not "exactly as taking the underlying object does"
             outs_t = []
             oblige(f'Connection::take only hands the wrapped object to Object::take (it does something else: {str(e)[:120]})', stt, False)
